@@ -61,9 +61,9 @@ Arg(f) == [f |-> f, m |-> "none"]
 \* the form an argument behaves as after a rewrite
 Eff(a) == IF a.m \in {"init0", "init1"} THEN "vbig" ELSE IF a.m \in {"inst", "narrow"} THEN "vfii" ELSE a.f
 GoAssign(f, ty) ==
-  CASE ty = "int" -> f \in {"c1", "vi"}
+  CASE ty = "int" -> f \in {"c1", "vi", "ti"}
     [] ty = "float64" -> f \in {"c1", "c15", "vf"}
-    [] ty = "string" -> f \in {"cs", "vs"}
+    [] ty = "string" -> f \in {"cs", "vs", "ts"}
     [] ty = "MyInt" -> f \in {"c1", "vmy"}
     [] ty = "Big" -> f = "vbig"
     [] ty = "sl" -> f \in {"vsl", "nil"}
@@ -72,21 +72,23 @@ GoAssign(f, ty) ==
     [] OTHER -> FALSE                              \* []E for E # int, uninferred T
 \* one argument against one parameter type: [ok, a] with the rewritten argument (the rewrite of an overloaded
 \* function value happens before the check and therefore also when the check fails)
-\* d = TRUE adds the deviation of the pinned implementation that the harness attributes findings to (KF-C06-1):
-\* an uninstantiated generic function value is accepted where an interface is expected
+\* d = TRUE adds the deviations of the pinned implementation that the harness attributes findings to:
+\*   KF-C06-1  an uninstantiated generic function value is accepted where an interface is expected
+\*   KF-C06-2  the T_Init conversion is "applied" to a value of a multi-value call, where it cannot be emitted
+\*   KF-C06-3  (DevAbort) a generic candidate [T any](T) given a multi-value call aborts the whole resolution
 AssignD(f, ty, d) == GoAssign(f, ty) \/ (d /\ f = "gid" /\ ty = "any")
 MatchArg(a, ty, d) ==
   LET f == Eff(a) IN
   IF AssignD(f, ty, d)
     THEN [ok |-> TRUE, a |-> [a EXCEPT !.m = IF f = "gid" /\ ty = "fii" THEN "inst" ELSE IF f = "ov1" THEN "narrow" ELSE @]]
-    ELSE IF ty = "Big" /\ GoAssign(f, "int") THEN [ok |-> TRUE, a |-> [a EXCEPT !.m = "init0"]]
-    ELSE IF ty = "Big" /\ GoAssign(f, "string") THEN [ok |-> TRUE, a |-> [a EXCEPT !.m = "init1"]]
+    ELSE IF ty = "Big" /\ GoAssign(f, "int") /\ (f # "ti" \/ d) THEN [ok |-> TRUE, a |-> [a EXCEPT !.m = "init0"]]
+    ELSE IF ty = "Big" /\ GoAssign(f, "string") /\ (f # "ts" \/ d) THEN [ok |-> TRUE, a |-> [a EXCEPT !.m = "init1"]]
     ELSE [ok |-> FALSE, a |-> [a EXCEPT !.m = IF f = "ov1" THEN "narrow" ELSE @]]
 \* the same without the T_Init extension: Go's own rule
 GoMatchArg(a, ty) == GoAssign(Eff(a), ty)
 
 (* ---- inference for generic candidates (on the current arguments) ---- *)
-DefType(f) == CASE f = "c1" -> "int" [] f = "c15" -> "float64" [] f = "cs" -> "string" [] f = "vi" -> "int" [] f = "vf" -> "float64"
+DefType(f) == CASE f \in {"c1", "ti"} -> "int" [] f = "ts" -> "string" [] f = "c15" -> "float64" [] f = "cs" -> "string" [] f = "vi" -> "int" [] f = "vf" -> "float64"
                 [] f = "vs" -> "string" [] f = "vmy" -> "MyInt" [] f = "vsl" -> "sl" [] f = "vbig" -> "Big" [] f = "vfii" -> "fii" [] OTHER -> "fail"
 Untyped(f) == f \in {"c1", "c15", "cs", "nil"}
 Comparable(t) == t \notin {"sl", "fii", "fail"}
@@ -128,7 +130,9 @@ TryD(s, as, ell, d) ==
   IF ~ArityOK(s, Len(as), ell) \/ Bind(s, as) = "fail" THEN [ok |-> FALSE, args |-> as]
   ELSE MatchFrom(s, as, 1, ell, Bind(s, as), d)
 Try(s, as, ell) == TryD(s, as, ell, FALSE)
-Pristine(call) == [k \in 1..Len(call) |-> Arg(call[k])]
+\* f(g()) with a two-value call g() (int, string) as the only argument: the values are the arguments (Go's special call form);
+\* they cannot be rewritten, so the T_Init conversion does not apply to them
+Pristine(call) == IF call = <<"tup">> THEN <<Arg("ti"), Arg("ts")>> ELSE [k \in 1..Len(call) |-> Arg(call[k])]
 Applicable(s, call, ell) == Try(s, Pristine(call), ell).ok
 \* Go's own rule (no T_Init): validated against go/types
 RECURSIVE GoFrom(_, _, _, _, _)
@@ -142,7 +146,7 @@ vars == <<fam, call, ell, args, backup, i, j, bind, phase, result>>
 RECURSIVE SeqsUpTo(_, _)
 SeqsUpTo(A, n) == IF n = 0 THEN {<<>>} ELSE LET shorter == SeqsUpTo(A, n - 1) IN shorter \cup {Append(q, x) : q \in {r \in shorter : Len(r) = n - 1}, x \in A}
 Families == SeqsUpTo(SigIds, MaxFam) \ {<<>>}
-Calls == SeqsUpTo(Forms, MaxArgs)
+Calls == {c \in SeqsUpTo(Forms, MaxArgs) : (\E k \in 1..Len(c) : c[k] = "tup") => c = <<"tup">>}
 HasGeneric(f) == \E k \in 1..Len(f) : IsGeneric(f[k])
 Exotic(c) == \E k \in 1..Len(c) : c[k] \in {"gid", "ov1"}
 Init == /\ fam \in Families /\ call \in Calls
@@ -186,6 +190,7 @@ Outcome == [fam |-> fam, call |-> call, ell |-> ell, idx |-> First,
             muts |-> IF First = 0 THEN <<>> ELSE Muts(Try(Sig(fam[First]), Pristine(call), ell).args),
             res |-> IF First = 0 THEN "" ELSE ResType(Sig(fam[First]), First, Pristine(call)),
             devidx |-> DevFirst,
+            devabort |-> (call = <<"tup">> /\ \E k \in 1..Len(fam) : Sig(fam[k]).gen = "T1" /\ DevFirst # 0 /\ k < DevFirst),
             devmuts |-> IF DevFirst = 0 THEN <<>> ELSE Muts(TryD(Sig(fam[DevFirst]), Pristine(call), ell, TRUE).args),
             goapp |-> [k \in 1..Len(fam) |-> GoOK(Sig(fam[k]), call, ell)],
             xapp |-> [k \in 1..Len(fam) |-> Applicable(Sig(fam[k]), call, ell)]]
